@@ -249,6 +249,21 @@ func (in *Interp) callBuiltin(fr *Frame, b *ssa.Builtin, args []Value, c *ssa.Ca
 		return r
 	case "clear":
 		switch x := args[0].(type) {
+		case Slice:
+			if x.obj == nil {
+				return nil
+			}
+			et := c.Args[0].Type().Underlying().(*types.Slice).Elem()
+			switch a := in.arrayAt(x.obj, x.path).(type) {
+			case *SArr:
+				a.copyFrom(x.off, &ropeConst{Const(a.w, 0)}, C64(0), x.len)
+			case *Array:
+				off, n := in.p.Concretize(x.off, "clear"), in.p.Concretize(x.len, "clear")
+				for i := uint64(0); i < n; i++ {
+					a.E[off+i] = zeroValue(et)
+				}
+			}
+			return nil
 		case MapRef:
 			if x.m != nil {
 				for _, e := range x.m.entries {
